@@ -295,7 +295,12 @@ class Runner:
                 tc = md.Trajectory(t.xyz.copy(), t.topology)
                 b = md.rmsd(tc, tc, 0)
                 # compared on squares: near rmsd = 0 the QCP difference Ga+Gb-2*lambda cancels and sqrt amplifies float32 noise
-                if not np.allclose(a * a, b * b, atol=3e-5):
+                # float32 budget of the QCP kernel (C06): a few 1e-6 of the mean squared radius, amplified when few atoms make the two largest
+                # eigenvalues of the key matrix close; a stale cache is off by the squared centre displacement (1e-2 nm^2 and more)
+                xc = t.xyz.astype(np.float64) - t.xyz.astype(np.float64).mean(1, keepdims=True)
+                g_over_n = float((xc ** 2).sum(-1).mean())
+                budget = 3e-5 + (1e-3 if t.n_atoms <= 4 else 1e-4) * g_over_n
+                if not np.allclose(a * a, b * b, atol=budget):
                     self.problem("cache", "after %s: rmsd(precentered=True) differs from rmsd from scratch on trajectory %d (max |d msd| %.3g nm^2, max |d rmsd| %.3g nm)" % (
                         tok, j, float(np.abs(a * a - b * b).max()), float(np.abs(a - b).max())))
                 if hash_traj(t) != before:
